@@ -174,6 +174,13 @@ class Canon(object):
             handler(self, obj)
             out.append('>')
             return
+        if tp.__name__ in ('list_iterator', 'tuple_iterator', 'bytes_iterator', 'range_iterator'):
+            import copy as _copy
+            out.append('<iter')
+            for item in _copy.copy(obj):
+                self.walk(item)
+            out.append('>')
+            return
         if isinstance(obj, types.GeneratorType):
             frame = obj.gi_frame
             out.append('<gen %s' % obj.__qualname__)
